@@ -76,9 +76,9 @@ Definition cput (k : ckey) (v : Z) (m : cmap) : cmap := (k, v) :: m.
 Record state := mkS { blk : amap pos; tgs : amap N; lbl : amap N; cnt : cmap; body : pos -> N }.
 
 (* which of the proposed repairs (repo_patches/C13-*-fix.diff) are applied *)
-Record cfg := mkCfg { fx_erase : bool; fx_movelbl : bool; fx_kind : bool; fx_allsyn : bool }.
-Definition impl : cfg := mkCfg false false false false.   (* the code as found *)
-Definition fixed : cfg := mkCfg true true true true.      (* with the four annotation/labelsz repairs *)
+Record cfg := mkCfg { fx_erase : bool; fx_movelbl : bool; fx_kind : bool; fx_allsyn : bool; fx_valid : bool }.
+Definition impl : cfg := mkCfg false false false false false.   (* the code as found *)
+Definition fixed : cfg := mkCfg true true true true true.       (* with the repairs C13-1..4 and the request validation C13-7, C13-8 *)
 
 (* ---------- Elements / ElementsNR methods ---------- *)
 (* emap[pos] = index, built by ranging over the slice: the LAST index with that position wins *)
@@ -272,12 +272,21 @@ Definition store_label_elements (fx : bool) (bodyf : pos -> N) (lb0 : amap N) (e
                (aput l nl lb, d_app d dl))
             (lg_keys g) (lb0, d0).
 
+(* ---------- request validation (C13-7-fix: Elements.validate; C13-8-fix: MoveElement) ---------- *)
+Fixpoint nodup_posb (l : list pos) : bool :=
+  match l with [] => true | p :: r => negb (mem_pos p r) && nodup_posb r end.
+Fixpoint nodup_Nb (l : list N) : bool :=
+  match l with [] => true | x :: r => negb (memN x r) && nodup_Nb r end.
+Definition elem_ok (e : elem) : bool := nodup_Nb (e_tags e).
+Definition elems_ok (es : list elem) : bool := nodup_posb (map e_pos es) && forallb elem_ok es.
+
 (* ---------- the edit paths ---------- *)
 Definition group (bs b : pos) (es : list elem) : list elem :=
   filter (fun e => pos_eqb (blockOf bs (e_pos e)) b) es.
 
 (* StoreElements; [ord] is the order in which Go ranges over the addToBlock map *)
 Definition store_elements (c : cfg) (bs : pos) (ord : list pos) (es : list elem) (s : state) : res state :=
+  if fx_valid c && negb (elems_ok es) then Err else     (* 400 before anything is written *)
   let tdr := fold_left (fun r b => res_bind r (add_tag_delta (fx_erase c) (group bs b es) (bget (blk s) b)))
                        ord (Ok []) in
   res_bind tdr (fun td =>
@@ -342,7 +351,17 @@ Definition move_in_rels (bs : pos) (bk0 : amap pos) (from to : pos) (rels : list
                     if existsb (has_pos from) el || existsb (refs from) el
                     then aput b (map (mv_rel from to) (map (repos from to) el)) acc else acc)
             (nodupb pos_eqb (map (fun r => blockOf bs (snd r)) rels)) bk0.
-Definition move_element (c : cfg) (bs : pos) (from to : pos) (s : state) : res state :=
+(* the checks of C13-8-fix; [None] = go on with the move *)
+Definition move_check (from to : pos) (fromE destE : list elem) : option (res unit) :=
+  match find (has_pos from) fromE with
+  | None => Some Err                                   (* "Did not find moved element" *)
+  | Some cur =>
+    if pos_eqb from to then Some (Ok tt)               (* nothing to do *)
+    else if refs from cur || refs to cur then Some Err
+    else if existsb (has_pos to) destE then Some Err
+    else None
+  end.
+Definition move_element_core (c : cfg) (bs : pos) (from to : pos) (s : state) : res state :=
   let fb := blockOf bs from in
   let tb := blockOf bs to in
   let del := negb (pos_eqb fb tb) in
@@ -356,6 +375,14 @@ Definition move_element (c : cfg) (bs : pos) (from to : pos) (s : state) : res s
     Ok (mkS (move_in_rels bs bk2 from to (e_rels moved)) (move_in_tags (tgs s) from to (e_tags moved)) lbl'
             (sz_apply (cnt s) d) (body s))
   end.
+Definition move_element (c : cfg) (bs : pos) (from to : pos) (s : state) : res state :=
+  if fx_valid c then
+    match move_check from to (bget (blk s) (blockOf bs from)) (bget (blk s) (blockOf bs to)) with
+    | Some (Ok _) => Ok s
+    | Some _ => Err
+    | None => move_element_core c bs from to s
+    end
+  else move_element_core c bs from to s.
 
 (* StoreBlocks, then POST reload (resyncInMemory, check=false), then labelsz POST reload *)
 Definition all_elems (bk : amap pos) : list elem := flat_map (bget bk) (akeys pos_eqb bk).
@@ -365,7 +392,10 @@ Definition groups_store (g : lgroups) : amap N :=
   fold_left (fun acc k => aput k (lg_get g k) acc) (lg_keys g) [].
 Definition store_blocks (bl : list (pos * list elem)) (bk : amap pos) : amap pos :=
   fold_left (fun acc be => aput (fst be) (snd be) acc) bl bk.
-Definition reload (c : cfg) (bl : list (pos * list elem)) (s : state) : res state :=
+Definition blocks_ok (bs : pos) (bl : list (pos * list elem)) : bool :=
+  forallb (fun be => elems_ok (snd be) && forallb (fun e => pos_eqb (blockOf bs (e_pos e)) (fst be)) (snd be)) bl.
+Definition reload (c : cfg) (bs : pos) (bl : list (pos * list elem)) (s : state) : res state :=
+  if fx_valid c && negb (blocks_ok bs bl) then Err else    (* POST blocks answers 400, nothing written *)
   let bk := store_blocks bl (blk s) in
   let all := all_elems bk in
   let lb := groups_store (label_groups (body s) all) in
@@ -430,11 +460,17 @@ Inductive op :=
 | ODelete (p : pos)
 | OMove (from to : pos)
 | OReload (bl : list (pos * list elem))
+| OLabels (ls : list (N * list elem))           (* POST labels: raw ingest of label lists *)
 | LMerge (target : N) (merged : list N)
 | LCleave (target cleaved : N) (incl : pos -> bool)
 | LSplit (old new : N) (blocks : list pos) (inspl : pos -> bool)
 | LMutate (b : pos) (prev data : pos -> N)
 | LIngest (b : pos) (data : pos -> N).
+
+(* handlePostLabels (handlers.go): each list is stored as given under its label key; label 0 is
+   skipped; nothing is sent to subscribers *)
+Definition post_labels (ls : list (N * list elem)) (lb : amap N) : amap N :=
+  fold_left (fun acc le => if (fst le =? 0)%N then acc else aput (fst le) (snd le) acc) ls lb.
 
 Definition with_labels (s : state) (r : amap N * delta) (bd : pos -> N) : res state :=
   Ok (mkS (blk s) (tgs s) (fst r) (sz_apply (cnt s) (snd r)) bd).
@@ -455,7 +491,8 @@ Definition step (c : cfg) (bs : pos) (o : op) (s : state) : res state :=
   | OPost ord es => store_elements c bs ord es s
   | ODelete p => delete_element bs p s
   | OMove f t => move_element c bs f t s
-  | OReload bl => reload c bl s
+  | OReload bl => reload c bs bl s
+  | OLabels ls => Ok (mkS (blk s) (tgs s) (post_labels ls (lbl s)) (cnt s) (body s))
   | LMerge t m => with_labels s (merge_labels t m s) (body_after bs o (body s))
   | LCleave t cl incl => with_labels s (cleave_labels t cl incl s) (body_after bs o (body s))
   | LSplit o' n bl f => with_labels s (split_labels o' n bl f s) (body_after bs o (body s))
@@ -480,10 +517,10 @@ Definition g_blocks (bs : pos) (bl : list (pos * list elem)) (G : list elem) : l
   flat_map snd bl ++ filter (fun e => negb (mem_pos (blockOf bs (e_pos e)) (map fst bl))) G.
 Definition gstep (bs : pos) (o : op) (G : list elem) : list elem :=
   match o with
-  | OPost _ es => g_post es G
+  | OPost _ es => if elems_ok es then g_post es G else G          (* an ill-formed request is rejected *)
   | ODelete p => if in_posb p G then g_delete p G else G
-  | OMove f t => if in_posb f G then g_move f t G else G
-  | OReload bl => g_blocks bs bl G
+  | OMove f t => match move_check f t G G with None => g_move f t G | Some _ => G end
+  | OReload bl => if blocks_ok bs bl then g_blocks bs bl G else G
   | _ => G
   end.
 Definition grun (bs : pos) (h : list op) (G : list elem) : list elem := fold_left (fun G o => gstep bs o G) h G.
@@ -513,15 +550,16 @@ Definition blocks_wf (bs : pos) (bl : list (pos * list elem)) : Prop :=
   NoDup (map fst bl) /\ NoDup (map e_pos (flat_map snd bl))
   /\ (forall b es e, In (b, es) bl -> In e es -> blockOf bs (e_pos e) = b /\ NoDup (e_tags e)).
 
-(* when is a request / event one that the property speaks about *)
+(* when is a request / event one that the property speaks about.  Ill-formed element lists, a move
+   onto an occupied position and a move that would make an element reference itself need no
+   hypothesis: the (repaired) code rejects them and changes nothing. *)
 Definition guard (bs : pos) (G : list elem) (bd : pos -> N) (o : op) : Prop :=
   match o with
   | OPost ord es => NoDup ord /\ (forall e, In e es -> In (blockOf bs (e_pos e)) ord)
-                    /\ NoDup (map e_pos es) /\ (forall e, In e es -> NoDup (e_tags e))
   | ODelete p => refs_listed bs G p
-  | OMove f t => in_posb t G = false /\ refs_listed bs G f
-                 /\ (forall e, In e G -> has_pos f e = true -> refs f e = false)
-  | OReload bl => blocks_wf bs bl
+  | OMove f t => refs_listed bs G f
+  | OReload bl => NoDup (map fst bl)
+  | OLabels ls => forall l es, In (l, es) ls -> l <> 0%N -> Permutation es (map nr (filter (on_body bd l) G))
   | LMerge t m => t <> 0%N /\ NoDup m /\ ~ In t m /\ ~ In 0%N m
   | LCleave t c _ => t <> 0%N /\ c <> 0%N /\ c <> t /\ (forall p, bd p <> c)
   | LSplit o n bl inspl => o <> 0%N /\ n <> 0%N /\ n <> o /\ NoDup bl
